@@ -183,6 +183,9 @@ func (t *arithTr) expr(e ast.Expr, sc *scope, pre *[]string, noHoist bool) (stri
 		if v, ok := t.consts[x.Name]; ok {
 			return "(" + v + " : Int)", tInt
 		}
+		if v, ok := t.consts["const:"+x.Name]; ok {
+			return v, tConst // untyped integer constant of the package
+		}
 		t.fail(x, "unknown identifier")
 	case *ast.BasicLit:
 		switch x.Kind {
@@ -1043,12 +1046,19 @@ func packageIntConsts(c *Ctx, files map[string]*ast.File) map[string]string {
 	for _, k := range sortedKeys(files) {
 		for _, d := range files[k].Decls {
 			gd, ok := d.(*ast.GenDecl)
-			if !ok || gd.Tok != token.VAR {
+			if !ok || (gd.Tok != token.VAR && gd.Tok != token.CONST) {
 				continue
 			}
 			for _, sp := range gd.Specs {
 				vs := sp.(*ast.ValueSpec)
 				if len(vs.Names) != 1 || len(vs.Values) != 1 {
+					continue
+				}
+				// `const maxBips = 10_000` (untyped integer constant)
+				if gd.Tok == token.CONST {
+					if bl, ok := vs.Values[0].(*ast.BasicLit); ok && bl.Kind == token.INT && vs.Type == nil {
+						res["const:"+vs.Names[0].Name] = strings.ReplaceAll(bl.Value, "_", "")
+					}
 					continue
 				}
 				call, ok := vs.Values[0].(*ast.CallExpr)
@@ -1151,7 +1161,9 @@ func emitArith(c *Ctx) (string, error) {
 			status = append(status, fmt.Sprintf("(%s, %s)", leanStr(tg.Name), leanStr("missing: function not found in "+tg.Dir)))
 			continue
 		}
+		t.consts = packageIntConsts(c, files)
 		code, err := t.translate(fd, tg)
+		t.consts = nil
 		if err != nil {
 			status = append(status, fmt.Sprintf("(%s, %s)", leanStr(tg.Name), leanStr("untranslatable: "+strings.TrimPrefix(err.Error(), c.Repo+"/"))))
 			fmt.Fprintf(&sb, "-- %s: untranslatable: %s\n\n", tg.Name, strings.ReplaceAll(strings.TrimPrefix(err.Error(), c.Repo+"/"), "\n", " "))
